@@ -432,7 +432,7 @@ func strLit(s string) *Term {
 	if t, ok := strLits[s]; ok {
 		return t
 	}
-	t := Var(fmt.Sprintf("str!%d", len(strLits)), SInt)
+	t := Var(fmt.Sprintf("strlit!%d", len(strLits)), SInt)
 	strLits[s] = t
 	strLitOrder = append(strLitOrder, s)
 	return t
